@@ -41,7 +41,7 @@ CFG = {'streams': [{'name': 'C07',
          'without quantifier ANY gap, also none - `global x="a"`, `global x;c`, `global x(module) ...`, `global x` at the end of the input - except '
          'that a following identifier character or `?` `*` `+` is kept apart: layouts the repaired parse_quantifier accepts, tags global-name-glued '
          '/ global-name-then-comment / global-name-at-eof / global:name-then-eq / global:quant-then-eq); optional trailing comma in non-empty '
-         'list/set literals. Every run starts with 13 hand-written valid texts (FIXED_VALID, tag src:fixed: `global x="a"`, `global x;c`, `global x= '
+         'list/set literals. Every run starts with 14 hand-written valid texts (FIXED_VALID, tag src:fixed: a `node` statement scoped on a string constant with U+00A0, U+2028 (escaped by <str as Debug>) and é (verbatim), whose text field needs the x_print table; `global x="a"`, `global x;c`, `global x= '
          '"a"`, `global x?="a"`, `global x` directly followed by a newline / a comment / a stanza / the end of the file). Texts <= 1500 characters. '
          'non-trivial = parses, contains a comment or a multi-byte character and at least 3 statements; distinct by hash of the text. stream C05p: '
          'up to 2/5 hand-written edge cases (empty / whitespace-only / comment-only input, `global x` followed by every character class (incl. the '
